@@ -17,6 +17,7 @@ class _Sched:
         self.skip_flag = skip_flag
         self.events = []      # (kind, cell, stmt)
         self.steps = 0
+        self.early = None
 
     def accesses(self, expr, env, store=False, stmt=None):
         for n in ast.walk(expr):
@@ -34,6 +35,12 @@ class _Sched:
             if isinstance(s, ast.If):
                 if self.skip_flag in names_in(s.test):
                     continue
+                if any(isinstance(x, (ast.Break, ast.Return)) for b in s.body + s.orelse for x in ast.walk(b)):
+                    # an exit from the loop nest that depends on what the table holds so far
+                    if any(isinstance(x, ast.Subscript) and u(x.value) == self.table for x in ast.walk(s.test)):
+                        self.early = s
+                        continue
+                    raise Unsupported('early exit under `{}`'.format(u(s.test)))
                 self.accesses(s.test, env, stmt=s)
                 self.run(s.body, env)
                 self.run(s.orelse, env)
@@ -107,6 +114,9 @@ def check_cyk_schedule(ctx, rep, f, max_n=12):
             env = {n_name: n, 'len({})'.format(wparam): n}
             sch.run([s for s in body if isinstance(s, (ast.For, ast.If))], env)
             ev = sch.events
+            if sch.early is not None:
+                rep.violates(RULE, f, sch.early, 'the loop nest is left early when `{}` holds: whether the remaining cells are computed depends on the contents of the table, but an empty diagonal does not make the longer spans empty (S -> PP, P -> AB over abab: no span of length 3 is derivable, the span of length 4 is)'.format(u(sch.early.test)))
+                return checked
             cells = {(i, j) for i in range(n) for j in range(i, n)}
             written = {c for k, c, _ in ev if k == 'w'}
             outside = [c for k, c, _ in ev if not (isinstance(c, tuple) and len(c) == 2 and 0 <= c[0] <= c[1] < n)]
